@@ -27,12 +27,12 @@ def decodeUvarintAux : Nat → Nat → Nat → Bytes → Option (Nat × Bytes)
 
 def decodeUvarint (bs : Bytes) : Option (Nat × Bytes) := decodeUvarintAux 10 0 0 bs
 
-/-- zig-zag: amino `EncodeVarint` of an int64 -/
-def zigzag (i : Int) : Nat := if 0 ≤ i then (2 * i).toNat else (-2 * i - 1).toNat
-def unzigzag (n : Nat) : Int := if n % 2 == 0 then (n / 2 : Nat) else -((n / 2 : Nat) : Int) - 1
+/-- amino encodes a (non-fixed) int64 as the uvarint of its two's-complement uint64 -/
+def toU64 (i : Int) : Nat := (i % (2 ^ 64 : Int)).toNat
+def ofU64 (n : Nat) : Int := if n < 2 ^ 63 then (n : Int) else (n : Int) - 2 ^ 64
 
-def varint (i : Int) : Bytes := uvarint (zigzag i)
-def decodeVarint (bs : Bytes) : Option (Int × Bytes) := (decodeUvarint bs).map fun r => (unzigzag r.1, r.2)
+def varint (i : Int) : Bytes := uvarint (toU64 i)
+def decodeVarint (bs : Bytes) : Option (Int × Bytes) := (decodeUvarint bs).map fun r => (ofU64 r.1, r.2)
 
 /-! ### length-delimited byte strings -/
 
@@ -92,6 +92,7 @@ def decodeCoin (bs : Bytes) : Option Coin :=
     match decodeLenPrefixed r with
     | some (t, []) => (parseIntText t).map fun a => { denom := d, amount := a }
     | _ => none
+  | some d, [] => some { denom := d, amount := 0 }     -- absent field: zero value
   | _, _ => none
 
 /-- a bare `[]Coin`: every element is field 1, length-delimited -/
